@@ -57,6 +57,20 @@ def call(x, api, dtype, nd=None):
         t, p, s, tr = gu(a)
     elif api == "gund":
         t, p, s, tr = gund(a, nd)
+    elif api == "yxt":
+        # the cube kernel: the series sits between a strongly rising, a strongly falling and a constant pixel
+        # (every pixel's result depends on its own series only - nothing carries over in scan order)
+        from hdc.algo.ops.stats import mann_kendall_trend_yxt
+
+        n = len(x)
+        ramp = np.arange(n).astype(dtype)
+        cube = np.stack([ramp, a, ramp[::-1].copy(), a, np.full(n, a[0], dtype=dtype), a]).reshape(2, 3, n)
+        _LAST_WATCH = core.Watch(cube)
+        r = mann_kendall_trend_yxt(cube)
+        cells = [r[0, 1], r[1, 0], r[1, 2]]
+        if any(not np.array_equal(cells[0], c_, equal_nan=True) for c_ in cells[1:]):
+            return "nan", "nan", "nan", -9     # the same series at three positions must give the same four numbers
+        t, p, s, tr = cells[0]
     else:
         da = xr.DataArray(a.reshape(1, 1, -1), dims=("y", "x", "time")).transpose(*[("y", "x", "time"), ("time", "y", "x"), ("y", "time", "x")][len(x) % 3])
         if api.startswith("mktrend_nd"):
@@ -138,7 +152,7 @@ def gen_cases(tier, seed):
                 xi = [-v for v in xi]
         else:
             xi = [rng.choice([0, 1]) for _ in range(n)]
-        api = rng.choice(["1d", "gu", "gund", "mktrend", "mktrend_nd", "mktrend_dask", "mktrend_nd_dask"])
+        api = rng.choice(["1d", "gu", "gund", "mktrend", "mktrend_nd", "mktrend_dask", "mktrend_nd_dask", "yxt"])
         if api == "1d":
             dtype = rng.choice(["int16", "float32", "float64"])
         if dtype != "int16" and rng.random() < 0.5:
